@@ -19,19 +19,22 @@ every dense write is on the (w >= 0, finite, infoset hit, action hit) path, at a
 that lookup, a plain store of the weight (last entry wins); unknown action -> InvalidAction, infoset
 absent from both tables -> InvalidInfoset; the normalising division is on the total != 0 edge whose
 other edge returns UninitializedInfoset; Ok is dominated by the all-seen test; from_named /
-from_named_eq pass player p's tables with player p's input. split.rs hands the dense vector's chunks out front to back (both `next` implementations: item = first `len` elements of the rest, remainder kept). Not decided: magnitude effects (two
+from_named_eq pass player p's tables with player p's input. split.rs hands the dense vector's chunks out front to back (both `next` implementations: item = first `len` elements of the rest, remainder kept). UninitializedInfoset is reachable only on the zero-total edge of an infoset or when a single-action infoset was not mentioned. Not decided: magnitude effects (two
 huge finite weights whose sum overflows, DESIGN D15).
 """
 ASSUMPTIONS = ['HashMap::get and iter().enumerate().find(|x| key == ..) both implement "lookup by key" over the same table']
 NOT_DECIDED = ['overflow of the per-infoset total']
 
 LOOKUPS = ('get', 'get_mut', 'find', 'position', 'binary_search', 'iter')
+DIRECT_Q = {}      # function -> switches on branch(lookup) (an Option `?` on the lookup itself)
 
 
 def lookup_ranks(f):
     """table lookups (Option of get / get_mut / find switched on directly), ranked by dominance:
     rank 0 is consulted first, rank 1 on its miss edge, …"""
     sw = []
+    direct_q = DIRECT_Q.setdefault(f.name, set())
+    direct_q.clear()
     for s in sorted(f.reach):
         t = f.blocks[s]['term']
         if t['t'] != 'switch':
@@ -46,6 +49,10 @@ def lookup_ranks(f):
                 y = strip_refs(x[2][0])
                 if y[0] == 'call' and short(y[1]) in ('ok_or', 'ok_or_else') and y[2] and strip_refs(y[2][0])[0] == 'call' and short(strip_refs(y[2][0])[1]) in ('get', 'get_mut', 'find', 'position'):
                     sw.append(s)
+                elif y[0] == 'call' and short(y[1]) in ('get', 'get_mut', 'find', 'position'):
+                    # `let hit = table.get(name)?;` inside a spliced Option-returning helper: Continue is the hit
+                    sw.append(s)
+                    direct_q.add(s)
     ranks = {}
     for s in sw:
         ranks[s] = sum(1 for o in sw if o != s and f.dominates(o, s))
@@ -75,7 +82,7 @@ def token(f):
                 if c['switch'] in ranks:
                     return ('L:table#%d' % ranks[c['switch']], vs[0])
                 return None     # loop structure / other options
-            if vs in (['Continue'], ['Break']) and q.find_sub(a, lambda x: q.is_call(x, 'ok_or')) is not None:
+            if vs in (['Continue'], ['Break']) and (q.find_sub(a, lambda x: q.is_call(x, 'ok_or')) is not None or c['switch'] in DIRECT_Q.get(f.name, ())):
                 if c['switch'] in ranks:
                     return ('L:table#%d' % ranks[c['switch']], 'Some' if vs == ['Continue'] else 'None')
                 return ('A:lookup', 'hit' if vs == ['Continue'] else 'miss')
@@ -97,6 +104,17 @@ def token(f):
             return ('T:zero', c['truth'])
         if c['kind'] == 'Ne' and is_const(c['b'], 0):
             return ('T:zero', not c['truth'])
+        if c['kind'] in ('Is:all', 'Is:any') and a is not None:
+            # ... of the single-action flags; an all / any over something sized by the multi-action table (a per-slot
+            # "written" bitmap) is another test
+            txt_ = facts.show(a)
+            for x_ in list(facts.walk(a)):
+                if x_[0] == 'var':
+                    txt_ += ' ' + ' '.join(facts.show(v_) for _, _, v_ in q.multi_def_values(f, x_[1]))
+            about_singles = q.find_sub(a, lambda x: x[0] == 'param' and x[1] == 3) is not None or 'single' in txt_
+            about_multi = q.find_sub(a, lambda x: x[0] == 'param' and x[1] == 2) is not None or 'num_inds' in txt_ or 'num_actions' in txt_
+            if about_multi and not about_singles:
+                return ('X:all-slots', c['truth'] if c['kind'] == 'Is:all' else (not c['truth']))
         if c['kind'] == 'Is:all':
             return ('S:all-seen', c['truth'])
         if c['kind'] == 'Is:any':
@@ -183,7 +201,12 @@ def outcomes(f):
             out.setdefault('seen', set()).update(frozenset(c.items()) for c in cxs)
     # Ok
     for bi, st, e in q.agg_sites(f, 'result::Result', 'Ok'):
-        if st['pl']['l'] == 0:
+        # the function's own result (also when it is built in the return slot of a spliced driver and moved out)
+        moved_out = False
+        if st['pl']['l'] != 0 and not st['pl']['p'] and f.locals[st['pl']['l']]['ty'] == f.locals[0]['ty'] and 'Box<[f64]>' in f.locals[0]['ty']:
+            us = q.local_uses(f, st['pl']['l'])
+            moved_out = bool(us) and all(k_ in ('stmt', 'ref') and x_['pl']['l'] == 0 and not x_['pl']['p'] for _, k_, x_ in us)
+        if st['pl']['l'] == 0 or moved_out:
             cxs = contexts_(bi, want)
             out.setdefault('Ok', set()).update(frozenset(c.items()) for c in cxs)
     # order relation
@@ -275,6 +298,11 @@ def run(ctx):
         ui = o.get('Err:UninitializedInfoset', set())
         ok_u = any(('T:zero', True) in c for c in ui) and any(('S:all-seen', False) in c for c in ui)
         ctx.verdict(ok_u, rule, '%s:%s:uninitialized' % (rule, nm), 'UninitializedInfoset is returned for a zero infoset total and for an unseen single-action infoset', f.where(0), fmt(ui))
+        # ... and for nothing else: an infoset that got *some* positive weight is accepted (unspecified actions are zero)
+        other = [c for c in ui if ('T:zero', True) not in c and ('S:all-seen', False) not in c]
+        if ui:
+            ctx.verdict(not other, rule, '%s:%s:uninitialized-only-then' % (rule, nm), 'UninitializedInfoset is returned only on the zero-total edge of an infoset or when a single-action infoset was not mentioned (actions left out of a covered infoset are zero, not an error)',
+                        f.where(0), 'other ways to that error: %s' % (fmt(other) if other else 'none'), breaks='a profile that leaves some action of an infoset unspecified (as every exported profile with an unplayed action does) is rejected')
         okc = o.get('Ok', set())
         ok_ok = bool(okc) and all(('S:all-seen', True) in c for c in okc)
         ctx.verdict(ok_ok, rule, '%s:%s:ok-needs-coverage' % (rule, nm), 'Ok is returned only after the all-single-action-infosets-seen test passed', f.where(0), fmt(okc), breaks='profiles that do not cover every infoset are accepted')
@@ -426,6 +454,23 @@ def run(ctx):
                             ok = True
                             ctx.touch(cf)
                             detail = 'scan state starts at 0 and advances by %s per infoset of the table' % facts.show(step)[:30]
+        if not ok:
+            # no counter at all: the dense vector is cut into per-infoset slices by split_by_mut over the table's
+            # num_actions in order, and a weight is written at (position of the infoset, position of the action)
+            for bj, t, e in q.calls_named(f, 'split_by_mut'):
+                lens = strip_refs(e[2][1]) if len(e[2]) > 1 else None
+                if lens is None or not q.is_call(lens, 'map') or len(lens[2]) < 2:
+                    continue
+                cf, _ = q.closure_of(lib, lens[2][1])
+                src = strip_refs(lens[2][0])
+                in_order = q.is_call(src, 'iter') and q.find_sub(src, lambda x: x[0] == 'param' and x[1] == 2) is not None and \
+                    not any(q.is_call(x, nm_) for x in facts.walk(src) for nm_ in ('rev', 'filter', 'skip', 'take', 'step_by'))
+                if cf is not None and in_order and q.is_num_actions(strip_refs(q.ret_expr(cf))):
+                    collected = any(q.is_call(strip_refs(ce[2][0]), 'split_by_mut') and strip_refs(ce[2][0])[3] == e[3] for _, _, ce in q.calls_named(f, 'collect') if ce[2])
+                    if collected:
+                        ok = True
+                        ctx.touch(cf)
+                        detail = 'no counter: the dense vector is cut by split_by_mut over the table\'s num_actions in order and written per slice (the cut itself: chunks-front-to-back)'
         ctx.verdict(ok, rule, '%s:%s:running-counter' % (rule, nm), 'dense indices are allocated by one walk over the infoset table in order, with a counter that starts at 0 and advances by one per action (or num_actions per infoset)', f.where(0), detail,
                     breaks='import and export disagree on the layout of the dense vector')
     # ---------------- player wiring of the public entry points
